@@ -16,7 +16,7 @@ def main():
     all_ids = [json.loads(l)["id"] for l in open(os.path.join(VERIF, "properties.jsonl")) if l.strip()]
     checks = []
     for pid in all_ids:
-        if pid not in props.PROPS or pid not in props.METAS:
+        if pid not in props.PROPS or pid not in props.METAS or pid not in mm.REGISTERED:
             continue
         m = props.METAS[pid]
         checks.append(dict(
